@@ -14,6 +14,13 @@ EXTENDS RxSched
 (* ------------------------------------------------------------------------*)
 (* Delivery of a notification to a node                                    *)
 (* ------------------------------------------------------------------------*)
+(* poll of an empty channel: Pending, also when the channel has ended (both poll functions map None to Pending) *)
+PollEmpty(nd) == NoneV
+
+(* src/ops/future.rs, src/ops/stream.rs: what the observers do with the source's error *)
+FutError(st, n) == [st EXCEPT !.nodes[n].q = Append(@, st.nodes[n].v), !.nodes[n].g = TRUE]   \* finish(): send what was recorded, close
+StreamError(st, n) == [st EXCEPT !.nodes[n].q = Append(@, <<"end">>), !.nodes[n].g = TRUE]    \* the error item, then the end marker
+
 RECURSIVE GroupTerm(_, _, _, _)
 GroupTerm(st, sids, t, v) ==
   IF sids = <<>> THEN <<>> ELSE SubjEmit(st, Head(sids), t, v) \o GroupTerm(st, Tail(sids), t, v)
@@ -109,6 +116,17 @@ CallStep(st, fr) ==
                    <<Call(d, t, v), Acq(nd.c), F1("fincall", nd.c), Rel(nd.c)>>)
     (* ---- a Subject used as the observer of a source (publish/connect, share) ---- *)
     [] k = "subjobs" -> Push(st, SubjEmit(st, nd.c, t, v))
+    (* ---- to_future / to_stream: the observer end of an unbounded channel (q = messages in flight, g = closed) ---- *)
+    [] k = "futobs" ->           \* v = last_value: NoneV | SomeV(item) | Er(..) the source's error | <<"multi">>
+         IF t = "C" THEN          \* send the last value (or Empty), close the channel
+           [st EXCEPT !.nodes[n].q = Append(@, IF nd.v = NoneV THEN <<"empty">> ELSE nd.v), !.nodes[n].g = TRUE]
+         ELSE LET x == IF t = "N" THEN SomeV(v) ELSE v
+                  st1 == [st EXCEPT !.nodes[n].v = IF nd.v = NoneV THEN x ELSE <<"multi">>] IN
+              IF t = "E" THEN FutError(st1, n) ELSE st1
+    [] k = "strobs" ->
+         IF t = "N" THEN [st EXCEPT !.nodes[n].q = Append(@, SomeV(v))]
+         ELSE IF t = "E" THEN StreamError([st EXCEPT !.nodes[n].q = Append(@, v)], n)
+         ELSE [st EXCEPT !.nodes[n].q = Append(@, <<"end">>), !.nodes[n].g = TRUE]
     [] k \in SchedObserverKinds -> SchedCall(st, fr)
     [] OTHER -> Fault(st, "spec:unknown-node-kind")
 
@@ -212,7 +230,7 @@ SubStep(st, fr) ==
       id == NextNode(st)
       md == Mode(st)
   IN
-  CASE o \in UnaryKinds ->
+  CASE o \in UnaryKinds \ {"status"} ->
          Push(AddNode(st, UNode(x, o, n)), <<Sub(S1(x), id)>>)
     [] o \in DerivedOps ->
          LET st1 == AddChain(st, Derived(x), n) IN
@@ -295,6 +313,14 @@ SubStep(st, fr) ==
          LET st1 == AddNode(AddNode(st, [Node("fincell", 0) EXCEPT !.m = md, !.b = PB(x)]),
                             [Node("finobs", n) EXCEPT !.c = id]) IN
          Push(st1, <<Sub(S1(x), id + 1), F1("mkfin", id)>>)
+    [] o = "to_future" \/ o = "to_stream" ->     \* subscribe the channel observer; the subscription is dropped
+         LET st1 == AddNode(st, [Node(IF o = "to_future" THEN "futobs" ELSE "strobs", 0) EXCEPT !.v = NoneV, !.g = FALSE])
+             st2 == AddSub(st1, SubRec("conv", id, 0)) IN
+         Push(st2, <<Sub(S1(x), id), F0("dropv"), F1("retsub", Len(st2.subs))>>)
+    [] o = "status" ->
+         LET st1 == AddNode(AddNode(st, Node("statcell", 0)), [Node("status", n) EXCEPT !.c = id])
+             st2 == [st1 EXCEPT !.statcells = Append(@, id)] IN
+         Push(st2, <<Sub(S1(x), id + 1)>>)
     [] o = "share" ->             \* ShareOp: one cell per built operator value (AST x), held for the whole call
          LET cell == st.shared[x] IN
          Push(st, <<Acq(cell), Fr("share2", cell, "", U, x), F1("pushn", n), Rel(cell)>>)
@@ -395,6 +421,12 @@ Inject(st, s) ==
     [] s.k = "bnext" -> Push(st0, <<Fr("bnext", s.a, "", s.v, 0)>>)
     [] s.k = "bpeek" -> Push(st0, <<F1("bpeek", s.a)>>)
     [] s.k = "bnextby" -> Push(st0, <<F2("bnextby", s.a, s.b)>>)
+    [] s.k = "fpoll" ->           \* poll the future / stream kept in handle a once
+         LET cn == st0.subs[st0.handles[s.a]].a nd == st0.nodes[cn] IN
+         IF nd.q # <<>> THEN [st0 EXCEPT !.ret = Head(nd.q), !.nodes[cn].q = Tail(@)]
+         ELSE [st0 EXCEPT !.ret = PollEmpty(nd)]
+    [] s.k = "stq" ->             \* CompleteStatus accessors of the a-th status operator: 0 running, 1 completed, 2 failed
+         [st0 EXCEPT !.ret = I(st0.nodes[st0.statcells[s.a]].n)]
     [] s.k = "build" -> st0      \* assembling a pipeline performs no work
     [] s.k = "connect" ->        \* connect() on the published observable AST a; keep the returned subscription as a handle
          Push([st0 EXCEPT !.handles = Append(@, 0)], <<F2("connect", Len(st0.handles) + 1, s.a)>>)
